@@ -151,7 +151,7 @@ func H_C01_clone_reuse() {
 	o3, _ := c14raw(s3, f)
 	o0, _ := c14raw(base, f)
 	verifAssert(o0 == baseText, "the shared prefix is unchanged by its uses")
-	verifAssert(o1 == baseText+" ++", "first use renders its own continuation")
-	verifAssert(o2 == baseText+" --", "second use renders its own continuation")
-	verifAssert(o3 == baseText+" = 1", "third use renders its own continuation")
+	verifAssert(specSameCode(o1, baseText+" ++"), "first use renders its own continuation")
+	verifAssert(specSameCode(o2, baseText+" --"), "second use renders its own continuation")
+	verifAssert(specSameCode(o3, baseText+" = 1"), "third use renders its own continuation")
 }
